@@ -83,6 +83,30 @@ func main() {
 		return
 	}
 
+	if *prop == "all" {
+		// tooling mode: every property on one loaded program, no evidence written; one RESULT line each
+		subRun.noEvidence = true
+		p, err := Load(*repo, *goos, *goarch, false)
+		if err != nil {
+			fmt.Fprintln(os.Stderr, err)
+			fmt.Println("RESULT LOAD rc=1")
+			os.Exit(1)
+		}
+		var ids []string
+		for id := range props {
+			ids = append(ids, id)
+		}
+		sort.Strings(ids)
+		worst := 0
+		for _, id := range ids {
+			code := runPropOn(props[id], p, *verif, *tier, *goos, *goarch, seed, time.Now())
+			fmt.Printf("RESULT %s rc=%d\n", id, code)
+			if code > worst {
+				worst = code
+			}
+		}
+		os.Exit(worst)
+	}
 	pd := props[*prop]
 	if pd == nil {
 		var ids []string
@@ -108,7 +132,11 @@ func runProp(pd *PropDef, repo, verif, tier, goos, goarch string, seed int64, st
 		c.Obs = append(c.Obs, &Ob{Rule: pd.ID + ".LOAD", Key: "load", Pos: "-", Status: "violation", st: StViolation, How: err.Error()})
 		return c.Finish(verif, seed, start, pd.Explanation, pd.Trusted, pd.Assumptions)
 	}
-	c = NewCtx(pd.ID, tier, p)
+	return runPropOn(pd, p, verif, tier, goos, goarch, seed, start)
+}
+
+func runPropOn(pd *PropDef, p *Prog, verif, tier, goos, goarch string, seed int64, start time.Time) (code int) {
+	c := NewCtx(pd.ID, tier, p)
 	known, kerr := loadKnown(verif + "/known_findings.json")
 	if kerr != nil {
 		fmt.Fprintln(os.Stderr, kerr)
